@@ -61,6 +61,10 @@ def run(tier, replay=None):
                 recs += rng.sample(recs3, min(len(recs3), 12000))
             recs.sort(key=lambda r: json.dumps(r, sort_keys=True))
             layouts = [[i, r['layout'], r['finds']] for i, r in enumerate(recs)]
+            # materialisation variant (no effect on Find): every third layout gets an __init__.py in one of its source roots
+            for i, lay, _f in layouts:
+                if i % 3 == 1:
+                    lay[i % len(lay)]['rinit'] = True
         n = core.NCPU
         jobs = [{'layouts': layouts[k::n], 'base': os.path.join(wd, 'fs%d' % k)} for k in range(n)]
         jobs = [j for j in jobs if j['layouts']]
